@@ -12,13 +12,21 @@ EXTENDS LibraryDefs, TLC
 CONSTANTS MaxDim, MaxOps, MaxHeap
 VARIABLES heap, prog
 vars == <<heap, prog>>
+(* the first heap cell comes from the harness ("input": any shape, rank, optionally      *)
+(* Hermitian) or from the library's own generators, whose contracts are part of the      *)
+(* system: create_test_matrix(m, n, rank) has the prescribed rank,                       *)
+(* generate_random_unitary_matrix(n) is unitary.  The origin is the first program entry.  *)
 Init ==
-  /\ \E m \in 1..MaxDim, n \in 1..MaxDim : \E r \in 0..Min2(m, n) : \E h \in BOOLEAN :
-        /\ (h => m = n)
-        /\ heap = << D(m, n, r, FALSE, h, FALSE) >>
-  /\ prog = <<>>
+  \/ /\ \E m \in 1..MaxDim, n \in 1..MaxDim : \E r \in 0..Min2(m, n) : \E h \in BOOLEAN :
+            /\ (h => m = n)
+            /\ heap = << D(m, n, r, FALSE, h, FALSE) >>
+      /\ prog = << <<"input", 0, 0>> >>
+  \/ /\ \E m \in 1..MaxDim, n \in 1..MaxDim : \E r \in 1..Min2(m, n) : heap = << D(m, n, r, FALSE, FALSE, FALSE) >>
+      /\ prog = << <<"create_test_matrix", 0, 0>> >>
+  \/ /\ \E n \in 1..MaxDim : heap = << D(n, n, n, TRUE, FALSE, FALSE) >>
+      /\ prog = << <<"generate_random_unitary_matrix", 0, 0>> >>
 Apply1(op, i) ==
-  /\ Enabled1(op, heap[i]) /\ Len(prog) < MaxOps
+  /\ Enabled1(op, heap[i]) /\ Len(prog) <= MaxOps
   /\ \E ds \in Out1W(op, heap[i]) :
         /\ Len(heap) + Len(ds) <= MaxHeap
         /\ \A k \in 1..Len(ds) : ~ds[k].tri \/ op = "qr"        \* keep exploration small: free flags down unless promised
@@ -27,12 +35,12 @@ Apply1(op, i) ==
         /\ heap' = heap \o ds
   /\ prog' = Append(prog, <<op, i, 0>>)
 ApplyMul(i, j) ==
-  /\ heap[i].n = heap[j].m /\ Len(prog) < MaxOps /\ Len(heap) < MaxHeap
+  /\ heap[i].n = heap[j].m /\ Len(prog) <= MaxOps /\ Len(heap) < MaxHeap
   /\ \E ds \in OutMulW(heap[i], heap[j]) :
         /\ ~ds[1].herm /\ (ds[1].orth => heap[i].orth /\ heap[j].orth) /\ (ds[1].tri => heap[i].tri /\ heap[j].tri)
         /\ heap' = heap \o ds
   /\ prog' = Append(prog, <<"mul", i, j>>)
-ApplyRank(i) == Len(prog) < MaxOps /\ prog' = Append(prog, <<"rank", i, 0>>) /\ UNCHANGED heap
+ApplyRank(i) == Len(prog) <= MaxOps /\ prog' = Append(prog, <<"rank", i, 0>>) /\ UNCHANGED heap
 Next == \E i \in 1..Len(heap) :
           \/ \E op \in Ops1 : Apply1(op, i)
           \/ ApplyRank(i)
